@@ -108,12 +108,17 @@ macro_rules! impl_facade {
                     }
                 }
                 let r = self.inner.$syscall(fn_ptr, $($arg, )*);
+                // the caller must see the errno of the call itself: what follows (state change,
+                // logging) may disturb it, e.g. a contended lock inside the logger ends in a
+                // futex wait that fails with EAGAIN
+                let errno = std::io::Error::last_os_error().raw_os_error().unwrap_or(0);
                 if let Some(co) = $crate::scheduler::SchedulableCoroutine::current() {
                     if co.running().is_err() {
                         $crate::error!("{} change to running state failed !", co.name());
                     }
                 }
-                $crate::info!("exit syscall {} {:?} {}", syscall, r, std::io::Error::last_os_error());
+                $crate::info!("exit syscall {} {:?} {}", syscall, r, std::io::Error::from_raw_os_error(errno));
+                $crate::syscall::set_errno(errno);
                 r
             }
         }
